@@ -1,6 +1,7 @@
 import Ucan.Driver.Command
 import Ucan.Driver.Glob
 import Ucan.Driver.Selector
+import Ucan.Driver.Policy
 /-!
 Line-protocol driver: one case per input line, one canonical answer per output line.
 Imports models and specs only (core Lean), never lemmas or property files.
@@ -15,6 +16,7 @@ def dispatch (toks : List String) : String :=
       if t.startsWith "cmd." then runCommand toks
       else if t.startsWith "glob." then runGlob toks
       else if t.startsWith "sel." then runSelector toks
+      else if t.startsWith "pol." then runPolicy toks
       else none
   match r with
   | some s => s
